@@ -497,6 +497,27 @@ func checkWriterGates(p *Program, r *Report) {
 	}
 }
 
+// copyRules runs a rule set into a scratch report and copies the obligations of the named rules.
+func copyRules(p *Program, r *Report, f func(*Program, *Report), rules ...string) {
+	want := map[string]bool{}
+	for _, ru := range rules {
+		want[ru] = true
+	}
+	r2 := newReport(r.Property, r.Tier, r.Seed)
+	f(p, r2)
+	for k, o := range r2.Obl {
+		if !want[o.Rule] {
+			continue
+		}
+		if v, bad := r2.Viol[k]; bad {
+			r.violate(o.Rule, strings.TrimPrefix(k, o.Rule+" / "), v.Where, v.Message, v.Witness)
+		} else {
+			r.ok(o.Rule, strings.TrimPrefix(k, o.Rule+" / "), o.Note)
+		}
+	}
+	r.Floors = append(r.Floors, r2.Floors...)
+}
+
 func payloadNames(st *types.Struct) []string {
 	var ns []string
 	for i := 0; i < st.NumFields(); i++ {
@@ -531,8 +552,9 @@ func init() {
 	checks["C01"] = func(p *Program, r *Report) {
 		checkWriterGates(p, r)
 		checkRestartCap(p, r)
-		r.Engines = []string{"pathsim", "dtable"}
-		r.Explanation = "Structural necessary conditions of the round trip, decided on every path by abstract simulation: a record whose payload fields are all empty (a deletion) reaches the block writer with its payload untouched (the log message normalisation must not turn a tombstone into a live entry); IsDeletion is true exactly when every payload field is empty (all valuations of the field-emptiness atoms); AddRef writes only update indices inside the declared limits; Writer.add lets a record reach the block writer only if its key is greater than the previous key; a restart point is recorded only while the 16-bit restart count has room and only for keys stored without prefix. Agreement of the encode/decode wire sequences with each other and with the format is decided under C14, the update-index delta under C11."
+		copyRules(p, r, checkWireSeq, "WIRE-AGREE", "KEY-BITS", "LOGKEY-CODEC")
+		r.Engines = []string{"pathsim", "dtable", "wireseq"}
+		r.Explanation = "Structural necessary conditions of the round trip, decided on every path by abstract simulation: a record whose payload fields are all empty (a deletion) reaches the block writer with its payload untouched (the log message normalisation must not turn a tombstone into a live entry); IsDeletion is true exactly when every payload field is empty (all valuations of the field-emptiness atoms); AddRef writes only update indices inside the declared limits; Writer.add lets a record reach the block writer only if its key is greater than the previous key; a restart point is recorded only while the 16-bit restart count has room and only for keys stored without prefix; for ref, log and index records and every value type the ordered wire events (varint / bytes / string / u16, each tied to the record field it is read from or stored to) written by encode on the paths of the writer's documented domain equal those read by decode; the key codec's shift and mask constants agree between the encoder and both decoders; the log key codec pair uses the same 9-byte reversed big-endian suffix. The update-index delta is decided under C11, conformance of the sequences with the format under C14."
 		r.NotDecided = []string{"that the bytes of a given record set read back equal (block boundaries, padding, offsets, zlib stream length, varint arithmetic)", "reflog blocks larger than the block size"}
 		r.Assumptions = []string{"record.key() is pure"}
 	}
